@@ -51,6 +51,9 @@ CHECKS = {
  'C08': dict(level='exploration', ref='§5 C08', world='refs',
    text="Seeded search over histories of source updates, links (Parameter / bind / two-source bind / depends method / rx expression / nested list or dict of these, made in the constructor or later), plain overrides, relinks and update() contexts on 1-3 targets with five allow_refs parameters; after every step every linked parameter must equal its reference evaluated on the model's source values, unlinked parameters must not move, unreferenced sources must carry no extra watcher and update contexts must restore value and link.",
    tech="deterministic simulation of link histories: link-map reference model, mirror invariant and watcher-leak baseline after every step"),
+ 'C09': dict(level='exploration', ref='§5 C09', world='rx',
+   text="Seeded search over typed expression DAGs (shared sub-expressions, inputs used as root and as argument; every binary operator in normal and reflected position, unary operators, indexing and slicing with reactive indices, method calls, attribute access, pipe, nested where, and_ or_ not_ bool len in_ is_ is_not map) over rx roots, Parameters and bound functions, driven by histories of input updates - including values that make nodes raise, later repaired - interleaved with reads of any node (reads fill caches) and watch registrations; every read is compared with a plain-Python evaluator of the same DAG (same value and type, or same exception class), watch callbacks must have received the fresh value.",
+   tech="deterministic simulation of update/read histories over generated expression DAGs with injected failing inputs; plain-Python evaluator as cache-coherence oracle"),
  'C10': dict(level='exploration', ref='§5 C10', world='async',
    text="Seeded search over schedules: every run is one exactly repeatable interleaving of assignments (coroutine / async generator / sync generator / bound async / plain / Parameter reference), source changes, rx input updates and reads, single event-loop steps, gate resolutions in any order (optionally failing) and executor-job completions on a virtual-time asyncio loop; oracles: attributable unique results (no stale apply, cancel-is-permanent), final value belongs to the latest evaluation of the latest assignment, bounded quiescence.",
    tech="deterministic simulation: virtual-time asyncio loop with seeded completion orders, interleaved assignments and injected awaitable failures; history oracle with attributable values"),
